@@ -357,6 +357,8 @@ def h_with_timeout(o: int, v: int, pre: bool, d: int, t: int, td: bool, never: b
                 assert not r.done()
             _complete(f, o, v)
             env.run_ready()
+            if not timed_out:
+                assert not env.v.pending_timers(), "the timeout timer must be removed once the input is done"
             env.advance(3)
             if timed_out:
                 if o == 1:
